@@ -26,10 +26,11 @@ def compare(chk, lines, tag, project=strip_message, describe=None, sides=("model
     Returns (results, agreed_ids)."""
     suite_name = suite_name or tag
     results, died = C.run_cases(lines, f"{chk.pid}_{tag}", sides=sides, timeout=timeout)
-    by_id = {C.case_id(l): l for l in lines}
+    first = lines[sides[0]] if isinstance(lines, dict) else lines
+    by_id = {C.case_id(l): l for l in first}
     n_bad = 0
     agreed = []
-    stats = {"cases": len(lines), "mismatch": 0, "discarded_overbudget": 0, "impl_crash": 0, "drift": 0}
+    stats = {"cases": len(first), "mismatch": 0, "discarded_overbudget": 0, "impl_crash": 0, "drift": 0}
     for cid, line in by_id.items():
         m = canon("model", results["model"].get(cid, "tool-died")) if "model" in sides else None
         impl = {s: canon(s, results[s][cid]) for s in sides if s != "model"}
@@ -72,8 +73,8 @@ def compare(chk, lines, tag, project=strip_message, describe=None, sides=("model
         else:
             agreed.append(cid)
     for side, ds in died.items():
-        for (k, rc, tail) in ds:
-            chk.notes.append(f"{suite_name}: {side} shard {k} exited with {rc}: {tail[-200:]}")
-    chk.evals += len(lines)
+        for (k, rc, tail, cid) in ds:
+            chk.notes.append(f"{suite_name}: {side} shard {k} exited with {rc} on case {cid}: {tail[-200:]}")
+    chk.evals += len(first)
     chk.suites[suite_name] = stats
     return results, agreed
